@@ -28,6 +28,9 @@ const maxZeroRun = 50 // bufio gives up after 100 consecutive (0, nil) reads
 
 var errInjected = errors.New("verif: injected stream error")
 
+// errUsedAfterClose is what a scripted stream answers once it was closed, as a file or an HTTP body does.
+var errUsedAfterClose = errors.New("verif: stream used after Close")
+
 // class names the behaviour class of a script (evidence and fingerprints).
 func (s Script) class(total int) string {
 	c := "whole"
@@ -100,6 +103,7 @@ func (r *sReader) Read(p []byte) (int, error) {
 	r.reads++
 	if r.closes > 0 {
 		r.readsAfterClose++
+		return 0, errUsedAfterClose
 	}
 	if r.errDelivered {
 		return 0, errInjected
@@ -176,6 +180,7 @@ func (w *sWriter) Write(p []byte) (int, error) {
 	w.writes++
 	if w.closes > 0 {
 		w.writesAfterClose++
+		return 0, errUsedAfterClose
 	}
 	if w.sc.Fault {
 		if w.errDelivered {
